@@ -1,7 +1,7 @@
 import HdVerif.Proofs.SRItems
 /-! C13, round 2: the dispatch tables REGENERATED from `sr/value_types.py` (`Gen.srDispatch` = `python_types` of
 `_get_content_item_class`, `Gen.srFromDatasetAsserts` = the value type each class's `from_dataset` asserts,
-`Gen.srCtorValueType` = the value type each `__init__` writes, `Gen.srValueTypes` = `ValueTypeValues`) as a bijection
+`Gen.srCtorValueType` = the value type each `__init__` writes, `Gen.c13ValueTypes` = `ValueTypeValues`) as a bijection
 between the 15 value types and the 15 classes, with the two class → value-type tables as its inverse; and what follows
 for parsing: every class's `from_dataset` refuses the data sets of each of the other 14 value types.
 
@@ -16,11 +16,11 @@ open HdVerif HdVerif.SRItems HdVerif.SRItemsLemmas
 the class names are the 15 of the model -/
 theorem dispatch_shape :
     (Gen.srDispatch.map (·.1)).Nodup ∧ (Gen.srDispatch.map (·.2)).Nodup ∧
-    (∀ k ∈ Gen.srDispatch.map (·.1), k ∈ Gen.srValueTypes.map (·.1)) ∧
-    (∀ k ∈ Gen.srValueTypes.map (·.1), k ∈ Gen.srDispatch.map (·.1)) ∧
+    (∀ k ∈ Gen.srDispatch.map (·.1), k ∈ Gen.c13ValueTypes.map (·.1)) ∧
+    (∀ k ∈ Gen.c13ValueTypes.map (·.1), k ∈ Gen.srDispatch.map (·.1)) ∧
     (∀ k ∈ Gen.srDispatch.map (·.2), k ∈ Cls.all.map Cls.pyName) ∧
     (∀ k ∈ Cls.all.map Cls.pyName, k ∈ Gen.srDispatch.map (·.2)) ∧
-    Gen.srDispatch.length = 15 ∧ (Gen.srValueTypes.map (·.1)).Nodup ∧ (Gen.srValueTypes.map (·.2)).Nodup ∧
+    Gen.srDispatch.length = 15 ∧ (Gen.c13ValueTypes.map (·.1)).Nodup ∧ (Gen.c13ValueTypes.map (·.2)).Nodup ∧
     (Cls.all.map Cls.pyName).Nodup := by
   refine ⟨by decide, by decide, by decide, by decide, by decide, by decide, by decide, by decide, by decide, by decide⟩
 
@@ -67,10 +67,10 @@ theorem asserts_inverse_of_dispatch (c vt : String) :
 
 /-- **exactly one class per value type**: total (every member of `ValueTypeValues` has a row) and functional (the row
 is unique, by `lookup`), and that class is one of the model's 15 -/
-theorem dispatch_exactly_one (p : String × String) (hp : p ∈ Gen.srValueTypes) :
+theorem dispatch_exactly_one (p : String × String) (hp : p ∈ Gen.c13ValueTypes) :
     ∃ c : Cls, Gen.srDispatch.lookup p.1 = some c.pyName ∧
       ∀ c' : Cls, Gen.srDispatch.lookup p.1 = some c'.pyName → c' = c := by
-  have key : ∀ p ∈ Gen.srValueTypes, ∃ c ∈ Cls.all, Gen.srDispatch.lookup p.1 = some c.pyName := by decide
+  have key : ∀ p ∈ Gen.c13ValueTypes, ∃ c ∈ Cls.all, Gen.srDispatch.lookup p.1 = some c.pyName := by decide
   obtain ⟨c, _, hc⟩ := key p hp
   refine ⟨c, hc, ?_⟩
   intro c' hc'
@@ -150,7 +150,7 @@ theorem classified_valueType {attrs attrs' : Attrs} {cls : Cls} (h : classify at
     cases a with
     | str v0 =>
       simp only [hv] at h
-      cases hn : enumName Gen.srValueTypes v0 with
+      cases hn : enumName Gen.c13ValueTypes v0 with
       | none => simp only [hn] at h; cases h
       | some n0 =>
         simp only [hn] at h
@@ -174,7 +174,7 @@ theorem classified_valueType {attrs attrs' : Attrs} {cls : Cls} (h : classify at
               subst hnn
               have m0 := enumName_value hn
               have m1 := enumName_value T.name
-              have key : ∀ p ∈ Gen.srValueTypes, ∀ q ∈ Gen.srValueTypes, p.1 = q.1 → p.2 = q.2 := by decide
+              have key : ∀ p ∈ Gen.c13ValueTypes, ∀ q ∈ Gen.c13ValueTypes, p.1 = q.1 → p.2 = q.2 := by decide
               have : v0 = vt := key _ m0 _ m1 rfl
               rw [this]
     | _ => simp only [hv] at h; cases h
